@@ -199,7 +199,7 @@ def loadFilteredFA (e : EnfP) (fa : FASt) (flt : Option Flt.Filter) (clear : Boo
   let (st1, okL) := if tooLong then (st0, false) else loadFileLinesPartial b.md st0 lines
   let fa' : FASt := match flt with
     | none => { fa with filtered := if okL then false else fa.filtered }   -- a completed full load ends the filtered state
-    | some _ => { fa with filtered := if okL then true else fa.filtered }
+    | some _ => { fa with filtered := true }     -- set before the load: a failed filtered load leaves a partial view
   if !okL then
     some ({ e with base := { b0 with p := st1.1, g := st1.2 } }.syncCache, fa', false)
   else
@@ -207,6 +207,14 @@ def loadFilteredFA (e : EnfP) (fa : FASt) (flt : Option Flt.Filter) (clear : Boo
     match ({ e with base := { b0 with rm := b0.rm.map (fun x => (x.1, x.2.clear)) } } : EnfP).finishLoadLive st1 with
     | none => none
     | some (e', ok) => some (e', fa', ok)
+
+/-- a filter value that is not a `*Filter`: the adapter refuses it, after the enforcer has cleared
+    its model (`clear`) and dropped its compiled matchers; the adapter is filtered from then on -/
+def loadBadFilterFA (e : EnfP) (fa : FASt) (clear : Bool) : EnfP × FASt :=
+  let b := e.base
+  let st0 : Stores := if clear then e.emptyStores else (b.p, b.g)
+  let b0 : Enf := { b with p := st0.1, g := st0.2 }.invalidate
+  ({ e with base := b0 }.syncCache, { fa with filtered := true })
 
 /-- `SavePolicy` on the filtered adapter: refused while filtered -/
 def saveFA (e : EnfP) (fa : FASt) : FASt × Bool :=
